@@ -15,7 +15,7 @@ P = {
  "C01": dict(cat="exploration", tech="reference-model monitor over an exhaustive day sweep + ASan/UBSan",
    text="Every one of the 911,280 days is produced by the oracle in the ymd spelling and pushed through the real dconv for "
         "26 specifiers and 7 calendar names (exhaustive on the day dimension); the other source representations (ywd, yd, "
-        "ymcw, ldn, mdn, jdn, @epoch) on a boundary+random set (thorough: all days). Each printed field is compared with "
+        "ymcw, ldn, mdn, jdn, @epoch, year + %U/%W week + weekday) on a boundary+random set (thorough: all days). Each printed field is compared with "
         "datetime.date. Held-on-observed, not a proof: what is not enumerated is the cross product source x all days in quick.",
    note=SAN + "text conventions from info/format.texi corrected by the pinned suite. " + TB, ref="3 C01"),
  "C02": dict(cat="exploration", tech="round-trip and representation-independence monitor (differential against the calendar oracle) + ASan/UBSan",
@@ -25,12 +25,13 @@ P = {
         "calendar oracle, so two representations that agree but are both wrong are still caught.",
    note=SAN + "Hijri -> Gregorian is not reachable from the CLI. " + TB, ref="3 C02"),
  "C03": dict(cat="exploration", tech="reference-model monitor (ordinal arithmetic) over dadd sweeps + ASan/UBSan",
-   text="dadd +-N days/weeks in 7 calendars on ~20k boundary+random start days x fixed N list (carry sizes from 1 day to 400 "
+   text="dadd +-N days/weeks in 9 representations (ymd, ywd, yd, ymcw, bizda, ldn, mdn, jdn, epoch) on ~20k boundary+random start days x fixed N list (carry sizes from 1 day to 400 "
         "years) x random N, results printed natively and in another calendar, plus the laws (d+n)-n=d and (d+a)+b=d+(a+b).",
    note=SAN + TB, ref="3 C03"),
  "C04": dict(cat="exploration", tech="reference-model monitor (month/year algebra with clamping) over dadd/dseq + ASan/UBSan",
    text="dadd +-N months/quarters/years in ymd, ymcw, bizda (months) and ywd, yd (years) from all end-of-month/week-53/"
-        "day-366/count-5 starts, single and composed steps, printed natively and in another calendar; dseq with month steps.",
+        "day-366/count-5 starts, single and composed steps, printed natively and in another calendar; dseq with month steps; "
+        "month/year steps on date-times in a zone's wall clock (dadd --from-zone Z --zone Z, stdin and argument).",
    note=SAN + "lazy-ultimo semantics (steps of ONE invocation compose) as pinned by the suite. " + TB, ref="3 C04"),
  "C05": dict(cat="exploration", tech="inverse-function monitor: real ddiff output fed back through the real add code (driver + dadd tool)",
    text="For all ordered pairs of clustered instants and 16 unit sets: sign = order, ddiff(B,A) = -ddiff(A,B), and the "
@@ -62,20 +63,23 @@ P = {
         "the zone-file oracle; several zones in one run against one zone per run; dadd REF with durations as stdin lines; "
         "mixed CRLF/LF line ends; the tool histories repeated on the 'pat' build (autos pre-filled with a pattern).",
    note=SAN + "single-value runs of the same build are the reference; the oracle backs the zone part so 'both wrong the same way' is excluded. " + TB, ref="3 C13"),
- "C19": dict(cat="fault_enumeration", tech="fault enumeration over file images under ASan (exact-size images via mmap shim) + probes H1/H3 + fidelity oracle for maps",
+ "C19": dict(cat="fault_enumeration", tech="fault enumeration over file images under ASan (exact-size images via mmap shim) + probes H1/H3 + valgrind memcheck on the decode-deciding faults + fidelity oracle for maps",
    text="Every truncation length and a fixed fault set per header count field, type index byte, version byte and magic of 14 "
         "seed TZif files (about 5000 images in quick), non-TZif files; generated zone-map sources compiled by the real "
         "`tzmap cc`: every present key must resolve, ~500 absent keys must not, `tzmap show` and dconv --zone MAP:KEY; "
-        "compiled maps: every truncation, offset-field faults, byte corruptions.",
+        "compiled maps: every truncation, offset-field faults, byte corruptions, also through tzmap show/check.",
    note=SAN + "the .tzmap payloads are not shipped; sources are generated. " + TB, ref="3 C19"),
  "C08": dict(cat="exploration", tech="reference-model monitor (ordinal/seconds order) over dutdrv comparisons, dtest exit codes and dsort outputs (permutation + monotonicity)",
    text="dt_dtcmp/dt_dt_in_range_p through dtest's code path for 11 kinds (ymd, ywd, yd, ymcw, bizda, ldn, time, three "
         "date-time spellings, epoch) on neighbourhood and random pairs, antisymmetry, dtest for all 9 operators, dsort "
         "[-r] on 120 generated files: permutation of the input multiset and monotone keys.",
    note=SAN + "mixed kinds are out of scope; sort(1) runs under LC_ALL=C. " + TB, ref="3 C08"),
- "C14": dict(cat="exploration", tech="reference-model monitor (lib/leap-seconds.list) over dconv --zone TAI/GPS, ddiff %rS, dadd +Nrs",
+ "C14": dict(cat="exploration", tech="reference-model monitor (lib/leap-seconds.list) over dconv --zone/--from-zone TAI|GPS, ddiff %rS, dadd +Nrs",
    text="Offsets at every table entry -2..+2 s, midpoints, year starts to 4093, 2^31 and 2^32 +-1; %rS on ordered pairs of "
-        "boundary instants incl. antisymmetry; +-Nrs from -5..+5 s around every inserted second and around 1972-01-01.",
+        "boundary instants (also > 2^31 s apart, inserted seconds as operands, %rS twice in a format) incl. antisymmetry; +-Nrs from "
+        "-5..+5 s around every inserted second and around 1972-01-01, N also the distance between any two insertions; both with "
+        "the date-times written as ymd, ymcw, ywd, yd and epoch seconds; +Nrs on operands in a zone's wall clock; the inverse "
+        "mapping --from-zone TAI|GPS.",
    note=SAN + "TAI-UTC before 1972 is the table's first value. " + TB, ref="3 C14"),
 }
 
